@@ -106,7 +106,7 @@ class BDSKModel(CallableModel):
             mu,
             psi,
             rho=torch.zeros(1) if self.rho is None else self.rho.tensor,
-            origin=self.origin.tensor,
+            origin=None if self.origin is None else self.origin.tensor,
             origin_is_root_edge=self.origin_is_root_edge,
             times=None if self.times is None else self.times.tensor,
             relative_times=self.relative_times,
